@@ -333,7 +333,7 @@ impl Property for C07 {
         120.0
     }
     fn families(&self, tier: Tier) -> Vec<Family<Case>> {
-        vec![Family::random("history", tier.n(120, 2500), fam_history)]
+        vec![Family::random("history", tier.n(400, 2500), fam_history)]
     }
     fn judge(&self, case: &Case, _strict: bool) -> Verdict {
         if !std::path::Path::new(CLI_BIN).exists() || !std::path::Path::new(SERVER_BIN).exists() {
